@@ -14,7 +14,6 @@ package basichost_test
 
 import (
 	"context"
-	"errors"
 	"fmt"
 	"io"
 	"os"
@@ -83,6 +82,7 @@ type vfC02LazyRun struct {
 	// largest unit (real bytes per model unit) the stack's flow control can hold unread for every stream of the
 	// connection at once; 0 = any (see vfC02Stacks)
 	maxUnit   int
+	sleep     func(class string) time.Duration // nil: time is not a dimension of this harness
 	abandoned atomic.Bool
 	mu        sync.Mutex
 	log       []any
@@ -247,11 +247,11 @@ func (r *vfC02LazyRun) body(addCloser func(func())) {
 	var buf []byte
 	check := func(si int, d *vfC02Dir, b []byte, n int, err error, target int) bool {
 		r.note(map[string]any{"op": "read", "dir": d.name, "real": len(b), "n": n, "err": fmt.Sprint(err)})
-		if err != nil && errors.Is(err, io.EOF) && d.led.Delivered+n < target {
+		if err == io.EOF && d.led.Delivered+n < target {
 			r.mismatch(si, "lazyms-early-eof", fmt.Sprintf("%s: EOF after %d bytes, %d were written", d.name, d.led.Delivered+n, d.led.Written), d.led.Written, d.led.Delivered+n)
 			return false
 		}
-		if err != nil && errors.Is(err, io.EOF) && d.closed && d.led.Delivered+n == d.led.Written {
+		if err == io.EOF && d.closed && d.led.Delivered+n == d.led.Written {
 			// the last bytes and the end of the stream in one call (io.Reader allows it; QUIC streams do it)
 			d.eof = true
 			err = nil
@@ -284,7 +284,7 @@ func (r *vfC02LazyRun) body(addCloser func(func())) {
 			r.mismatch(si, "lazyms-bytes", fmt.Sprintf("%s: %d bytes delivered after everything written had been read", d.name, n), 0, n)
 			return false
 		}
-		if !errors.Is(err, io.EOF) {
+		if err != io.EOF {
 			r.mismatch(si, "lazyms-eof-missing", fmt.Sprintf("%s: read after the writer's CloseWrite and all data: %v", d.name, err), "EOF", fmt.Sprint(err))
 			return false
 		}
@@ -302,6 +302,13 @@ func (r *vfC02LazyRun) body(addCloser func(func())) {
 		steps++
 		switch op.Name() {
 		case "ctok", "sneg":
+		case "wait":
+			// (virtual) time passes between two operations; only the harness that runs in a synctest bubble sleeps
+			if r.sleep != nil {
+				d := r.sleep(op.S("c"))
+				r.note(map[string]any{"op": "wait", "class": op.S("c"), "slept": d.String(), "after_closewrite": op.B("afterclose")})
+				r.res.Case(fmt.Sprintf("wait/%s/%v/%v", op.S("c"), op.B("afterclose"), op.B("readpending")))
+			}
 		case "cwrite", "swrite":
 			d := c2s
 			if op.Name() == "swrite" {
@@ -503,8 +510,15 @@ var (
 )
 
 // vfC02LazyReplay runs the walks (one in `share`) on streams from h1 to h2.
-func vfC02LazyReplay(res *vfh.Result, files []string, h1, h2 host.Host, label string, share, par, maxUnit int) error {
+func vfC02LazyReplay(res *vfh.Result, files []string, h1, h2 host.Host, label string, share, par, maxUnit int, sleep ...func(string) time.Duration) error {
 	rounds := vfh.EnvInt("VERIF_C02_ROUNDS", 1)
+	w1, w2 := 20*time.Second, 40*time.Second
+	var sleepFn func(string) time.Duration
+	if len(sleep) > 0 {
+		// virtual time (synctest bubble): the watchdogs only fire when every goroutine is blocked for good
+		sleepFn = sleep[0]
+		w1, w2 = 10000*time.Hour, 10000*time.Hour
+	}
 	type job struct {
 		f  string
 		w  vfh.Walk
@@ -525,13 +539,13 @@ func vfC02LazyReplay(res *vfh.Result, files []string, h1, h2 host.Host, label st
 			defer wg.Done()
 			for j := range ch {
 				mk := func() *vfC02LazyRun {
-					return &vfC02LazyRun{res: res, file: j.f, w: j.w, h1: h1, h2: h2, proto: proto, accept: accept, label: label, maxUnit: maxUnit,
+					return &vfC02LazyRun{res: res, file: j.f, w: j.w, h1: h1, h2: h2, proto: proto, accept: accept, label: label, maxUnit: maxUnit, sleep: sleepFn,
 						pick: vfc02.Picker{Seed: uint64(vfh.Seed()), Round: j.rd}}
 				}
 				if vfC02Stalled.Load() {
 					continue // a reproduced stall has been reported: the rest would only wait for watchdogs
 				}
-				if mk().run(20 * time.Second) {
+				if mk().run(w1) {
 					res.Inc("lazyms_stalls", 1)
 					if vfC02Stalls.Add(1) > 3 && !vfC02Stalled.Swap(true) {
 						// stalls that do not reproduce are no verdict; more of them would only burn watchdog time
@@ -539,7 +553,7 @@ func vfC02LazyReplay(res *vfh.Result, files []string, h1, h2 host.Host, label st
 						continue
 					}
 					r2 := mk()
-					if r2.run(40*time.Second) && !vfC02Stalled.Swap(true) {
+					if r2.run(w2) && !vfC02Stalled.Swap(true) {
 						r2.mismatch(len(j.w.Steps), "lazyms-stall", "bytes handed to Write did not reach the reader (the walk stalled twice)", "delivery", "stall")
 					}
 				}
